@@ -35,6 +35,7 @@ TRUSTED_PARSE = {
 # socket (OSError only) or cannot raise on peer data
 SAFE_CALLS = {'send_response', 'send_header', 'end_headers', 'write', 'error', 'warning', 'info', 'debug',
               'exception', 'str', 'len', 'encode', 'getpeername', 'repr', 'isinstance', 'format'}
+TOTAL_ON_STR = {'join', 'split', 'splitlines', 'strip', 'decode', 'encode', 'super', 'str', 'replace', 'send_response'}
 SAFE_PROJECT = {'_compress_if_supported': 'compresses own response bytes; Accept-Encoding parsing is total (C17)',
                 'mk_chunks': 'pure framing of own response bytes'}
 HANDLER = 'sdc11073.httpserver.httprequesthandler.DispatchingRequestHandler'
@@ -236,6 +237,40 @@ def run(ctx):  # noqa: C901, PLR0912, PLR0915
            f'({esc[0][2]}); it is called by _compress_if_supported after the response was started and outside any handler: the '
            f'exception leaves do_POST / do_GET and the peer gets no response', fi=ph, node=esc[0][1] if esc else None,
            witness=[w for _e, _n, w in esc])
+    # reason phrases carry exception texts and path elements: they reach the status line as one line of latin-1 text
+    # (a line break ends the status line and spills into the headers; other characters raise inside send_response, which
+    # runs outside every handler) - either the handler class sanitises in its own send_response, or all phrases are literals
+    from engine.deps import Deps as _Deps
+    hcls = repo.cls('sdc11073.httpserver.httprequesthandler.DispatchingRequestHandler')
+    sr = hcls.methods.get('send_response')
+    sanitised = False
+    if sr is not None:
+        dsr = _Deps(sr.node)
+        for c in calls_in(sr.node, 'send_response'):
+            if isinstance(c.func, ast.Attribute) and isinstance(c.func.value, ast.Call) and call_name(c.func.value) == 'super' \
+                    and len(c.args) >= 2:
+                reach = dsr.reach(c.args[1])
+                enc = [x for e in reach for x in ast.walk(e) if isinstance(x, ast.Call) and call_name(x) == 'encode' and x.args
+                       and isinstance(x.args[0], ast.Constant) and str(x.args[0].value).lower() in ('latin-1', 'latin1', 'iso-8859-1')
+                       and len(x.args) > 1 and isinstance(x.args[1], ast.Constant) and x.args[1].value != 'strict']
+                one_line = [x for e in reach for x in ast.walk(e) if isinstance(x, ast.Call) and
+                            call_name(x) in ('split', 'splitlines', 'translate') or
+                            (isinstance(x, ast.Call) and call_name(x) == 'replace' and x.args and
+                             isinstance(x.args[0], ast.Constant) and x.args[0].value in ('\n', '\r', '\r\n'))]
+                sanitised = bool(enc) and bool(one_line)
+    literal_only = True
+    for fi_ in hcls.methods.values():
+        if fi_ is sr:
+            continue
+        for c in calls_in(fi_.node, 'send_response'):
+            if len(c.args) > 1 and not isinstance(c.args[1], ast.Constant):
+                literal_only = False
+    ctx.ob('C13.R3', 'reason phrase is one line of latin-1', sanitised or literal_only,
+           'the reason phrase of every response is reduced to one line of latin-1 text before the status line is written'
+           if sanitised else 'all reason phrases are literals' if literal_only else
+           'reason phrases built from exception texts / path elements reach BaseHTTPRequestHandler.send_response as they are: a '
+           'multi-line text (traceback of a failed fault serialisation) gives a malformed status line, a character outside '
+           'latin-1 raises UnicodeEncodeError outside every handler and no response is sent', fi=sr, where=hcls.qual)
     # the middleware entry points are contained, too
     for m in ('do_post', 'do_get'):
         fi = repo.func(f'sdc11073.dispatch.messageconverter.MessageConverterMiddleware.{m}')
@@ -461,7 +496,12 @@ def uncontained_calls(repo, fi, cls_q, depth=3, _seen=None):
             tgt = repo.resolve_method(cls_q, f.attr)
             if tgt is not None and tgt.qual not in _seen and tgt.module.name.startswith('sdc11073') and \
                     f.attr not in SAFE_PROJECT:
-                out.extend(uncontained_calls(repo, tgt, cls_q, depth - 1, _seen | {tgt.qual}))
+                inner = uncontained_calls(repo, tgt, cls_q, depth - 1, _seen | {tgt.qual})
+                if f.attr in SAFE_CALLS:
+                    # an override of a response-writing primitive (send_response that tidies the reason phrase): string
+                    # operations that are total on str do not count
+                    inner = [(c2, f2) for c2, f2 in inner if call_name(c2) not in TOTAL_ON_STR]
+                out.extend(inner)
                 continue
         out.append((c, fi))
     return out
